@@ -626,6 +626,8 @@ def module_call(ex, qual, e, env):
         v = lg(x)
         ex.fact(z3.Implies(x > 0, z3.And(p10(v) == x, z3.Implies(x == 1, v == 0), z3.Implies(x > 1, v > 0), z3.Implies(x < 1, v < 0))))
         return v
+    if qual == "np.ix_":
+        return ("ix_", A(0), A(1))
     if qual == "np.pad":
         # only np.pad(A, (0, 1), "constant", constant_values=0) on an abstract square matrix: one zero row and column appended
         v = A(0)
